@@ -46,6 +46,7 @@ static bool_t derTIsValid(u32 tag)
 	{
 		u32 t;
 		u32 b;
+		u32 sh = 7;
 		// установлен старший бит в последнем (младшем) октете?
 		if (tag & 128)
 			return FALSE;
@@ -57,7 +58,7 @@ static bool_t derTIsValid(u32 tag)
 			if ((tag & 128) == 0 || (t >> 25) != 0)
 				return FALSE;
 			// пересчитать тег-как-значение
-			b = tag & 127, t = t << 7, t |= b;
+			b = tag & 127, t |= b << sh, sh += 7;
 		}
 		// можно кодировать одним октетом? меньшим числом октетов?
 		// в первом (старшем) октете не установлены 5 младших битов?
